@@ -154,13 +154,13 @@ theorem onEntriesPure_cases (env : Env) (st : St) (c : Call) :
   refine ⟨r.1, r.2, ?_⟩
   intro hs
   refine ⟨foldl_series_cache env e.1 (env.fp e.1) e.2 tps _ (st.ts, st.cache) hs, ?_⟩
-  by_cases hf : (appended env st c).size + r.1.size > env.flushBytes
-  · left
+  cases hf : env.flush ((appended env st c).size + r.1.size)
+  · right
     simp only [onEntriesPure]
     simp only [appended, r, e, tps] at hf
-    simp only [hf, ↓reduceIte]
+    simp only [hf]
     rfl
-  · right
+  · left
     simp only [onEntriesPure]
     simp only [appended, r, e, tps] at hf
     simp only [hf, ↓reduceIte]
@@ -294,7 +294,7 @@ theorem promCall_eq (labels : Labels) (buf : List PromSample) :
 
 /-- the mid-series flushes of remote write partition the samples of the series, whatever the limit and the
     counter inherited from earlier series -/
-theorem promSamples_rows (env : Env) (fl : Nat) (labels : Labels) (rest : List PromSample) :
+theorem promSamples_rows (env : Env) (fl : Nat → Bool) (labels : Labels) (rest : List PromSample) :
     ∀ (points : Nat) (buf : List PromSample),
       (promSamples fl labels points buf rest).1.flatMap (callRows env)
         = streamRows env labels ((buf ++ rest).map PromSample.entry) := by
@@ -315,7 +315,7 @@ theorem promSamples_rows (env : Env) (fl : Nat) (labels : Labels) (rest : List P
     · rw [ih (points + 1) (buf ++ [s])]
       simp
 
-theorem promSamples_WF (fl : Nat) (labels : Labels) (rest : List PromSample) :
+theorem promSamples_WF (fl : Nat → Bool) (labels : Labels) (rest : List PromSample) :
     ∀ (points : Nat) (buf : List PromSample), ∀ c ∈ (promSamples fl labels points buf rest).1, c.WF := by
   have hwf : ∀ buf : List PromSample, (promCall labels buf).WF := by
     intro buf
@@ -345,7 +345,7 @@ theorem promSamples_WF (fl : Nat) (labels : Labels) (rest : List PromSample) :
       · exact ih 0 [] c hc
     · exact ih (points + 1) (buf ++ [s]) c hc
 
-theorem promSeriesList_rows (env : Env) (fl : Nat) (d : PromWrite) :
+theorem promSeriesList_rows (env : Env) (fl : Nat → Bool) (d : PromWrite) :
     ∀ points, (promSeriesList fl points d).flatMap (callRows env)
       = streamsRows env (d.map (fun s => (s.ident, s.sub))) := by
   induction d with
@@ -356,7 +356,7 @@ theorem promSeriesList_rows (env : Env) (fl : Nat) (d : PromWrite) :
     rw [promSamples_rows]
     rfl
 
-theorem promSeriesList_WF (fl : Nat) (d : PromWrite) :
+theorem promSeriesList_WF (fl : Nat → Bool) (d : PromWrite) :
     ∀ points, ∀ c ∈ promSeriesList fl points d, c.WF := by
   induction d with
   | nil => intro _ c hc; simp [promSeriesList] at hc
@@ -436,7 +436,7 @@ theorem Body.streams_tp (now : Int) (b : Body) : ∀ s ∈ b.streams now, ∀ e 
     first | (show Gen.sampleTypeLog ≤ 2; decide) | (show Gen.sampleTypeMetric ≤ 2; decide)
 
 /-- the calls of a body are well formed and carry exactly its streams' entries -/
-theorem Body.calls_spec (env : Env) (fl : Nat) (now : Int) (b : Body) :
+theorem Body.calls_spec (env : Env) (fl : Nat → Bool) (now : Int) (b : Body) :
     (∀ c ∈ b.calls fl now, c.WF) ∧
     (b.calls fl now).flatMap (callRows env) = streamsRows env (b.streams now) := by
   have htp := Body.streams_tp now b
@@ -476,7 +476,7 @@ theorem Body.calls_spec (env : Env) (fl : Nat) (now : Int) (b : Body) :
 /-- the central statement: for every body, every environment (thresholds, abstract fingerprint), every
     remote-write limit: the parser succeeds and the sample rows of its chunks, concatenated, are the
     entries of the body's streams, each under its own stream's fingerprint -/
-theorem Body.run_spec (env : Env) (fl : Nat) (now : Int) (b : Body) :
+theorem Body.run_spec (env : Env) (fl : Nat → Bool) (now : Int) (b : Body) :
     ∃ chunks, b.run env fl now = .ok chunks ∧ (∀ ch ∈ chunks, ChunkOk env ch) ∧
       chunks.flatMap Chunk.rows = streamsRows env (b.streams now) := by
   obtain ⟨hwf, hrows⟩ := Body.calls_spec env fl now b
